@@ -83,7 +83,7 @@ def parse_steps(out):
         elif cur is not None:
             if ln.startswith("i "):
                 cur[2] = dict(kv.split("=") for kv in ln[2:].split())
-            elif ln.split(" ", 1)[0] in ("ref", "e", "sorted", "n", "k", "vs", "vc", "va", "x"):
+            elif ln.split(" ", 1)[0] in ("ref", "e", "sorted", "n", "k", "vs", "vc", "va", "x", "w", "frefs"):
                 cur[1].append(ln)
     return steps
 
@@ -106,13 +106,18 @@ def parse_dump(lines):
         elif t[0] == "sorted":
             d["sorted"] = t[1]
         elif t[0] == "n":
-            d["n"][t[1]] = t[2:]
+            if len(t) > 2 and t[2] == "!dangling-subfield":
+                d.setdefault("dangling", []).append(t[1])
+            else:
+                d["n"][t[1]] = t[2:]
         elif t[0] == "k":
             d["k"][t[1]] = t[2:]
         elif t[0] in ("vs", "vc", "va"):
             d.setdefault("v", []).append(t)
         elif t[0] == "x":
             d.setdefault("x", []).append(t)
+        elif t[0] == "w":
+            d.setdefault("w", []).append(t)
     return d
 
 
@@ -155,7 +160,16 @@ def spec_check(op, res, dump_lines):
         if "kids" in e and e["kids"] != "-":
             for k in e["kids"].split(","):
                 if k == "!" or k not in by or not k.startswith(nm + "/"):
-                    bad.append(("meta", "subfield list of %s contains %s" % (nm, k)))
+                    bad.append(("kids", "subfield list of %s contains %s" % (nm, "a freed entry" if k == "!" else k)))
+    for par in d.get("dangling", []):
+        bad.append(("kids", "subfield list of %s holds a freed entry (gd_nentries / gd_entry_list on it would touch freed memory)" % par))
+    for t in d.get("w", []):
+        if t[1] == "total-bad":
+            continue
+        if t[2] == "!dangling-subfield":
+            bad.append(("kids", "subfield list of %s holds a freed entry" % t[1]))
+        else:
+            bad.append(("list", "parent %s: gd_entry_list / gd_nentries disagree: %s" % (t[1], " ".join(t[2:]))))
     # aliases
     def chase(t, n=0):
         if n > len(by) + 1 or t not in by:
@@ -289,6 +303,90 @@ TOP = ["a", "b", "aa", "ab", "ba", "aaa", "aab", "abcdefg1", "abcdefg2", "abcdef
        "zz", "INDEX", "a_", "p0"]
 SUB = ["x", "y", "xx", "a", "aa", "z9"]
 TYPES = [0, 1, 2, 3, 4, 5, 7, 8, 9, 10, 11, 12, 13, 14, 15, 15, 15, 16, 16, 17, 17, 18]
+
+
+def tree_tail(rng, head):
+    """Library-only closing part: include trees of depth >= 3, parents and subfields at every level, subfields moved
+    (gd_move) into fragments other than their parent's, then un-includes / deletes / renames / moves at every level,
+    with a full gd_entry_list-versus-gd_nentries sweep (W) after every step."""
+    t = []
+    par = [-1, 0]                 # parent fragment of every fragment, as the library numbers them
+    files = [3, 4, 5, 6, 7, 8]
+    rng.shuffle(files)
+    fields = {}                   # parent field -> fragment it was created in
+    metas = []
+
+    def depth(f):
+        d = 0
+        while par[f] > 0 or (par[f] == 0 and f != 0):
+            f = par[f]; d += 1
+            if f == 0:
+                break
+        return d
+
+    # 1. a chain / tree of includes: prefer deep parents
+    for k in files[:rng.randint(3, 6)]:
+        cand = list(range(len(par)))
+        p = max(rng.sample(cand, min(2, len(cand))), key=depth) if rng.random() < 0.7 else rng.choice(cand)
+        t.append("I inc%d %d" % (k, p))
+        par.append(p)
+        fields["k%d_c" % k] = len(par) - 1
+        metas += ["k%d_c/m" % k, "k%d_c/n" % k, "k%d_c/o" % k, "k%d_al" % k]
+    # 2. parents with subfields created through the API at several levels (root included)
+    for j in range(rng.randint(1, 3)):
+        f = rng.choice([0, 0, rng.randrange(len(par))])
+        nm = "tp%d" % j
+        t.append("A 0 - %s 15 %d 0 - - %d" % (nm, f, j + 1))
+        fields[nm] = f
+        for sub in rng.sample(["ta", "tb", "tc", "td"], rng.randint(1, 3)):
+            t.append("A 1 %s %s 15 0 0 - - %d" % (nm, sub, rng.randint(1, 9)))
+            metas.append(nm + "/" + sub)
+        if rng.random() < 0.5:
+            t.append("L %s tl %s 0" % (nm, rng.choice(list(fields))))
+            metas.append(nm + "/tl")
+    t.append("W")
+    # 3. subfields (and some parents) moved to other fragments, at every depth
+    for _ in range(rng.randint(2, 6)):
+        c = rng.choice(metas) if rng.random() < 0.8 else rng.choice(list(fields))
+        t.append("V %s %d" % (c, rng.randrange(len(par))))
+        t.append("W")
+
+    def uninclude(f):
+        # renumbering as in gd_uninclude: the subtree goes, from the highest index down; the last fragment fills a hole
+        sub = set([f]); grew = True
+        while grew:
+            grew = False
+            for i, p in enumerate(par):
+                if p in sub and i not in sub:
+                    sub.add(i); grew = True
+        for idx in sorted(sub, reverse=True):
+            last = len(par) - 1
+            if idx != last:
+                par[idx] = par[last]
+                for i in range(len(par)):
+                    if par[i] == last:
+                        par[i] = idx
+            par.pop()
+
+    # 4. take things away at every level
+    for _ in range(rng.randint(2, 7)):
+        r = rng.random()
+        if r < 0.45 and len(par) > 1:
+            f = rng.randrange(1, len(par))
+            t.append("U %d" % f)
+            uninclude(f)
+        elif r < 0.6 and fields:
+            t.append("D %s %d" % (rng.choice(list(fields)), rng.choice([1, 1, 9, 0])))
+        elif r < 0.7 and metas:
+            t.append("D %s %d" % (rng.choice(metas), rng.choice([0, 8])))
+        elif r < 0.82 and fields:
+            t.append("R %s %s %d" % (rng.choice(list(fields)), rng.choice(["zq", "zr", "zs"]), rng.choice([0, 2])))
+        elif metas:
+            t.append("V %s %d" % (rng.choice(metas + list(fields)), rng.randrange(max(1, len(par)))))
+        t.append("W")
+        if rng.random() < 0.5 and fields:
+            t.append("Q %s %d %d" % (rng.choice(list(fields)), rng.choice([22, 15, 20, 21]), rng.choice([0, 1, 3])))
+    return t
 
 
 def gen_sequence(rng, n, alias_loops, madd_any_frag=False):
@@ -532,7 +630,9 @@ def main():
     chk.notes.append("detected configuration: " + json.dumps(cfgnote))
     chk.cov["config_bits"] = bits
 
-    madd_frag_safe = True   # 81b3046: gd_madd*() ignores the caller's fragment index
+    # 81b3046 made the type switch of _GD_Add use the new entry's fragment; _GD_CopyScalars still checks scalar codes
+    # against D->fragment[entry->fragment_index] (DIRECT["crash/madd-fragment-index"]), so keep the index in range
+    madd_frag_safe = False
 
     # ---- 2. generated sequences
     nseq = 160 if not chk.thorough else 2500
@@ -562,6 +662,8 @@ def main():
                 else:
                     ops.append("N %d %s" % (rng.choice([1, 2]), rng.choice(["ns", "n.s", "~"])))
                 ops += ["Q - 22 0", "Q - %d %d" % (rng.choice([15, 20, 21, 19]), rng.choice([0, 1]))]
+        elif i % 4 == 2:
+            ops += tree_tail(rng, ops)
         seqs.append(ops)
     for k, w in list(WITNESS.items()) + list(EXTRA_WITNESS.items()) + list(FIXED_WITNESS.items()):
         if k not in os.environ.get("C15_SKIP_WITNESS", "").split(","):
@@ -671,14 +773,14 @@ def main():
                 total_steps += 1
                 res, dl = tsteps[i]
                 kinds[ops[i][0]] = kinds.get(ops[i][0], 0) + 1
-                if ops[i][0] != "Q":
+                if ops[i][0] not in "QW":
                     lastmut = i
                 for kind, msg in spec_check(ops[i], res, dl):
                     if kind in tfirst:
                         continue
                     tfirst[kind] = i
-                    # gd_uninclude can leave the table in pieces: whatever follows one is its consequence
-                    lab = "U" if any(o[0] == "U" for o in ops[cut:lastmut + 1]) else op_label(ops[lastmut])
+                    # every check is evaluated after every step, so a symptom first shows right after its culprit
+                    lab = op_label(ops[lastmut])
                     key = "%s/%s" % (kind, lab)
                     if key not in viol:
                         viol[key] = ("after %s (step %d of a %d-step sequence): %s" % (ops[lastmut], lastmut, len(ops), msg),
@@ -707,6 +809,8 @@ def main():
 
     # behaviour outside the model, judged against the property text directly
     DIRECT = {
+        # gd_madd*() with an out-of-range (documented as ignored) fragment index and a scalar code
+        "crash/madd-fragment-index": ["A 0 - r2 17 0 0 - - 1", "A 0 - c 15 0 0 - - 1", "A 0 r2 xx 3 2 0 r2 c,- 0"],
         # gd_alter_spec (mod.c, outside the model) drops the hidden flag of the field and keeps the cached lists
         "list/S": ["A 0 - r2 15 0 1 - - 5", "A 0 - b 15 0 0 - - 1", "Q - 22 0", "S - r2 6", "Q - 22 0"],
     }
